@@ -54,8 +54,8 @@ CLAIMS = {
         text="Proof over the real working_set::rebuild (scan, append, zip write-back, shrink and grow loops, arbitrary pure predicate): afterwards index 0 is empty, a task is listed iff it exists and satisfies the predicate, exactly once; without renumbering survivors keep their index and newcomers come after all old indexes; with renumbering entries are gap-free in the old relative order; committed. TaskDb::commit_operations appends the tasks of the flagged operations, and only those, at the end without moving others. Replica level: the predicates actually passed are proved to be 'status is pending or recurring' (rebuild) and 'status changes from neither to one of them' (commit); Replica::sync and undo rebuild without renumbering.",
         note="Write-back is proved against the StorageTxn contract (trailing blanks trimmed, add appends at highest index + 1), proved for in-memory, assumed for SQLite. Old working set assumed duplicate-free (storage invariant)."),
     'C16': dict(
-        text="Proof that 19 of the 20 StorageTxn methods of the in-memory Txn (all but get_pending_tasks) satisfy the StorageTxn contract, return values included: listings are exactly the stored tasks/uuids, get_task_operations returns the task's operations oldest first, sync_complete marks everything synced and drops exactly the history of tasks that no longer exist (the SQLite store's two statements); commit copies the transaction's data into the store and a dropped transaction changes nothing.",
-        note="IN-MEMORY HALF ONLY. Iterator chains are verified as the loops they denote (rule R26). The SQLite implementation, reopen/persistence, schema upgrade and read-only mode are SQL in a C library and are not covered."),
+        text="Two parts. PROOF (in-memory half): 19 of the 20 StorageTxn methods of the in-memory Txn (all but get_pending_tasks) satisfy the StorageTxn contract, return values included: listings are exactly the stored tasks/uuids, get_task_operations returns the task's operations oldest first, sync_complete marks everything synced and drops exactly the history of tasks that no longer exist; commit copies the transaction's data into the store and a dropped transaction changes nothing. BOUNDED stand-in (SQLite half, executed, never counted as proved): the real SqliteStorage, through the real send_wrapper, is run next to the real InMemoryStorage on every contract-respecting call sequence within stated bounds (quick: 3 calls in an abandoned transaction, 2 in a committed one, from 3 committed base states, 27-50 distinct calls; thorough: 4 / 3) comparing every return value, what is visible after commit / abandon / close+reopen, on databases laid out by TaskChampion 0.8, 0.9 and schema (0,1), and that a read-only handle refuses every modification. A mismatch is reported with the failing call sequence, replayable on the real code.",
+        note="The in-memory half is proved (iterator chains verified as the loops they denote, rule R26). NOTHING about SQLite is proved: SQL run by a C library is outside every installed deductive verifier, so that half is a bounded execution against the proved implementation -- bounds in evidence coverage.bounded; sequences longer than the bound, more than 2 task ids, and concurrent handles are not explored."),
     'C18': dict(
         text="Kani proves for every i64 that the checked timestamp conversion used by the read accessors (utc_timestamp_opt in the unmodified src/task/time.rs) never panics; Verus proves panic-freedom (its default obligations: no unwrap on None, no index out of bounds, no arithmetic overflow, no unreachable) for the extracted read functions.",
         note="Iterator-returning getters built from lazy closures over HashMap iterators (get_tags, get_dependencies), DependencyMap and Replica read methods are outside reach. String kernels (Tag::from_str) are bounded Kani harnesses, labelled bounded."),
@@ -83,6 +83,8 @@ m = {
          "kind_free_text": "contract weaving (line-level, insert-only) + Verus 0.2026.09.13 (Z3) deductive verification of functions extracted mechanically from /repo on every run"},
         {"name": "kani", "path": "/verif/kani", "serves_properties": [p for p in engines_props if cfg['properties'][p].get('kani')],
          "kind_free_text": "Kani 0.68 / CBMC 6.11 harnesses over HashMap-free kernels included by #[path] from /repo/src"},
+        {"name": "dyn", "path": "/verif/vf/dyn.py + /verif/dyn/*", "serves_properties": [k for k, v in cfg['properties'].items() if v.get('dyn')],
+         "kind_free_text": "bounded stand-ins (never counted as proved): harness crates built against a copy of the tree under check that execute the real code on every contract-respecting call sequence within stated bounds, using the implementation proved against the contract as the oracle"},
     ],
     "checks": [],
     "notes": "See DESIGN.md. Genuine defects found while anchoring the contracts were repaired by 'fix:' commits in /repo (known_findings.json lists them as fixed). Exit code 2 = UNDECIDED (front-end rejection, lost anchor, rlimit): never an alarm.",
@@ -96,6 +98,8 @@ for p in props:
         tech = TECH
         if pc.get('kani'):
             tech += "; Kani/CBMC full-domain loop-free harness for the integer kernel"
+        if pc.get('dyn'):
+            tech += "; plus a BOUNDED stand-in for code outside every verifier's reach (SQL in a C library): exhaustive execution of contract-respecting call sequences up to a stated depth against the implementation proved to satisfy the contract (labelled bounded, not counted as proved)"
         m['checks'].append({
             "property_id": i,
             "quick_cmd": "./check %s --tier quick" % i,
